@@ -1,4 +1,4 @@
-\* thorough: data sets <= 5 items (120), selections <= 3 selectors, 8 exclusions; strings <= 4 classes (2801)
+\* thorough: data sets <= 5 items (120), selections <= 3 selectors (344), 8 exclusions = 330 240 cases; strings <= 4 classes (2801)
 SPECIFICATION GSpec
 CONSTANTS
   MaxItems = 5
